@@ -116,6 +116,17 @@ def run_check(ctx):
                 progs.append(r)
     if not progs:
         raise MachineryError("no programs dumped")
+    # vacuity guard: every line kind and condition class of the alphabet must occur in replayed programs
+    seen_codes = {}
+    for rec in progs:
+        for code in rec["p"]:
+            seen_codes[code] = seen_codes.get(code, 0) + 1
+    want = {"ifdef", "ifndef", "elifdef", "elifndef", "else", "endif", "text", "def0", "def1", "undef", "warn",
+            "err", "inc", "inc2", "push", "pop"} | {"if:" + c for c in SPELL} | {"elif:" + c for c in SPELL}
+    missing = sorted(want - set(seen_codes))
+    if missing:
+        raise MachineryError("vacuous run: line kinds never generated: %s" % missing)
+    ctx.notes["line_kind_occurrences"] = seen_codes
     ctx.cov["exhaustive"] = True   # the BFS configurations; the simulated deeper programs are extra
     ctx.cov["rule"] = ("TLC enumerates every well-nested directive sequence within the cfg bounds; each closed "
                        "program containing a conditional is replayed through parse_file -E and gcc -E; "
